@@ -40,6 +40,21 @@ class PolarizationState:
             self.Ex /= mag
             self.Ey /= mag
 
+    def to_dict(self):
+        """Dictionary representation of the polarization state."""
+        return {'is_polarized': self.is_polarized, 'Ex': self.Ex,
+                'Ey': self.Ey, 'phase_x': self.phase_x,
+                'phase_y': self.phase_y}
+
+    @classmethod
+    def from_dict(cls, data):
+        """Create a polarization state from its dictionary representation.
+        The stored (already normalised) field components are kept as is."""
+        state = cls(data['is_polarized'], data['Ex'], data['Ey'],
+                    data['phase_x'], data['phase_y'])
+        state.Ex, state.Ey = data['Ex'], data['Ey']
+        return state
+
     def __str__(self):
         """
         Returns a string representation of the polarization state.
